@@ -721,7 +721,9 @@ func SintOneof() []*File {
 func Cross() []*File {
 	// a file that declares only enums (no message): it still has to be generated
 	xbe := &File{Name: "verif/xb/xbe.proto", Pkg: "verif.xb", GoPkg: "xb", Group: "x", Tags: []string{"cross"},
-		Enums: []E{{Name: "Mood", Values: []EV{{"MOOD_UNSPECIFIED", 0}, {"MOOD_OK", 1}, {"MOOD_BAD", -1}}}}}
+		// (an alias enum with a negative number: what another file's getter default, Values[0] of the
+		// SHARED enum object, must not depend on is whether this file is generated alongside)
+		Enums: []E{{Name: "Mood", AllowAlias: true, Values: []EV{{"MOOD_UNSPECIFIED", 0}, {"MOOD_OK", 1}, {"MOOD_BAD", -1}, {"MOOD_FINE", 1}}}}}
 	xb := &File{Name: "verif/xb/xb.proto", Pkg: "verif.xb", GoPkg: "xb", Group: "x", Tags: []string{"cross"}, Deps: []string{"verif/xb/xbe.proto"},
 		Enums: []E{{Name: "Side", Values: []EV{{"SIDE_UNKNOWN", 0}, {"SIDE_LEFT", 1}, {"SIDE_RIGHT", 2}}}},
 		Msgs: []M{
@@ -847,7 +849,19 @@ func PluginUniverse() map[string]*File {
 		Msgs: []M{{Name: "Uses", Fields: []F{one("l", 1, "message", ".verif.ex.Lone")}}, {Name: "BigRow", Fields: big}}}
 	h := &File{Name: "verif/xb/xb4.proto", Pkg: "verif.xb", GoPkg: "xb", Group: "x", Deps: []string{"verif/ex/ex.proto"},
 		Msgs: []M{{Name: "UsesNot", Fields: []F{one("a", 1, "int32")}}}}
-	return map[string]*File{"A": a, "B": b, "C": c, "D": d, "E": e, "F": f, "G": g, "H": h, "xa2": cross[2], "xbe": cross[0]}
+	// I: a service-only file whose rpc types come from two Go packages with the same base name
+	// and are used nowhere else in the file (the order in which such types are first mentioned
+	// decides which package gets the plain import alias)
+	p1 := &File{Name: "verif/bank/v1beta1/bank.proto", Pkg: "verif.bank.v1beta1", GoPkg: "bank/v1beta1", Group: "svc",
+		Msgs: []M{{Name: "SendRequest", Fields: []F{one("amount", 1, "uint64")}}, {Name: "SendResponse", Fields: []F{one("ok", 1, "bool")}}}}
+	p2 := &File{Name: "verif/staking/v1beta1/staking.proto", Pkg: "verif.staking.v1beta1", GoPkg: "staking/v1beta1", Group: "svc",
+		Msgs: []M{{Name: "BondRequest", Fields: []F{one("amount", 1, "uint64")}}, {Name: "BondResponse", Fields: []F{one("ok", 1, "bool")}}}}
+	isvc := &File{Name: "verif/svc/svc.proto", Pkg: "verif.svc", GoPkg: "svc", Group: "svc",
+		Deps: []string{"verif/bank/v1beta1/bank.proto", "verif/staking/v1beta1/staking.proto"},
+		Svcs: []Svc{{Name: "Router", RPCs: []RPC{
+			{Name: "Send", In: ".verif.bank.v1beta1.SendRequest", Out: ".verif.staking.v1beta1.BondResponse"},
+			{Name: "Bond", In: ".verif.staking.v1beta1.BondRequest", Out: ".verif.bank.v1beta1.SendResponse"}}}}}
+	return map[string]*File{"A": a, "B": b, "C": c, "D": d, "E": e, "F": f, "G": g, "H": h, "I": isvc, "p1": p1, "p2": p2, "xa2": cross[2], "X": cross[0]}
 }
 
 // AllStatic returns the static corpus in dependency order.
